@@ -252,7 +252,7 @@ pub struct ValCfg {
 }
 impl Default for ValCfg {
     fn default() -> Self {
-        ValCfg { sane_temporal: true, dec_in_precision: true, max_str: 40, max_list: 5, nan: true }
+        ValCfg { sane_temporal: true, dec_in_precision: true, max_str: 300, max_list: 5, nan: true }
     }
 }
 
